@@ -5,9 +5,8 @@ use crate::bytes::Bytes;
 use crate::node::Branch;
 
 /// hand-lay a leaf page with 3 two-byte keys per the pinned layout (see harness/page.rs)
-fn lay_leaf(buf: &mut [u64; 32], keys: &[[u8; 2]; 3], n: usize) {
+pub(crate) fn lay_leaf_at(base: *mut u8, keys: &[[u8; 2]; 3], n: usize) {
     unsafe {
-        let base = buf.as_mut_ptr() as *mut u8;
         *(base as *mut u64) = 3; // id
         *base.add(8) = 2; // leaf
         *(base.add(16) as *mut u64) = n as u64;
@@ -30,9 +29,8 @@ fn lay_leaf(buf: &mut [u64; 32], keys: &[[u8; 2]; 3], n: usize) {
     }
 }
 
-fn lay_branch(buf: &mut [u64; 32], keys: &[[u8; 2]; 3], n: usize) {
+pub(crate) fn lay_branch_at(base: *mut u8, keys: &[[u8; 2]; 3], n: usize) {
     unsafe {
-        let base = buf.as_mut_ptr() as *mut u8;
         *(base as *mut u64) = 3;
         *base.add(8) = 1; // branch
         *(base.add(16) as *mut u64) = n as u64;
@@ -51,6 +49,13 @@ fn lay_branch(buf: &mut [u64; 32], keys: &[[u8; 2]; 3], n: usize) {
             i += 1;
         }
     }
+}
+
+fn lay_leaf(buf: &mut [u64; 32], keys: &[[u8; 2]; 3], n: usize) {
+    lay_leaf_at(buf.as_mut_ptr() as *mut u8, keys, n)
+}
+fn lay_branch(buf: &mut [u64; 32], keys: &[[u8; 2]; 3], n: usize) {
+    lay_branch_at(buf.as_mut_ptr() as *mut u8, keys, n)
 }
 
 fn contract(keys: &[[u8; 2]; 3], n: usize, probe: &[u8], got: (usize, bool)) {
